@@ -583,6 +583,9 @@ func (g *Gen) callCommon(fn *ssa.Function, st *State, call *ssa.CallCommon, resu
 					g.clauseEval = map[string]bool{}
 				}
 				g.clauseEval[fmt.Sprintf("callpre#%d", ci)] = true
+				if g.cpReach != nil {
+					g.cpReach[ci] = append(g.cpReach[ci], st.pc)
+				}
 				g.oblige(st, "callpre", fmt.Sprintf("callpre[%s](%s)#%d", lbl, dispName, g.ord("callpre."+lbl)), g.line(pos), goal)
 			}
 		}
@@ -921,7 +924,7 @@ func (g *Gen) havocByContract(st *State, cc *Contract, env map[string]Val, args 
 				}
 				g.heapSort[m] = srt
 			}
-			g.havocField(st, m)
+			g.havocFieldDeep(st, m)
 		}
 	}
 }
